@@ -286,11 +286,13 @@ func (c *Chunk) addLocked(chunk pb.Chunk) bool {
 		}
 	}
 	if err := c.save(chunk); err != nil {
-		if chunk.ChunkId != 0 && vfs.IsNotExist(err) {
+		if vfs.IsNotExist(err) {
 			// the temp dir has been removed while the image was being received,
 			// e.g. the replica was restarted on this NodeHost, its start-up
 			// cleanup removes all receiving directories. stop tracking the stream,
 			// the sender is told that the chunk is rejected and raft will retry.
+			// this includes chunk 0, its temp dir can be removed right after it
+			// was created (a missing parent dir is not reported as an error).
 			plog.Warningf("temp dir of %s removed while receiving, stream dropped",
 				key)
 			c.removeTempDir(chunk)
